@@ -13,6 +13,7 @@ import (
 	"sort"
 	"strconv"
 	"strings"
+	"syscall"
 	"testing"
 	"testing/synctest"
 	"time"
@@ -90,7 +91,7 @@ func runOne(t *testing.T, def *CheckDef, tier string, seed int64, tape *Tape, ke
 					if _, ok := rec.(nodeExit); ok {
 						r.Inconclusive("node exit unwound to the driver")
 					} else {
-						r.Inconclusive("harness panic: %v\n%s", rec, debug.Stack())
+						r.HandlePanic(rec, debug.Stack())
 					}
 				}
 				// Always drain: stop the scheduler and close every node.
@@ -100,9 +101,16 @@ func runOne(t *testing.T, def *CheckDef, tier string, seed int64, tape *Tape, ke
 			def.Run(r)
 		})
 	}()
-	res.Seed = seed
+	r.fillResult(&res, def, keepTrace)
+	res.WallMs = time.Since(start).Milliseconds()
+	return res
+}
+
+// fillResult copies the run's outcome into res.
+func (r *Run) fillResult(res *RunResult, def *CheckDef, keepTrace bool) {
+	res.Seed = r.Seed
 	res.Steps = r.Steps
-	res.TapeLen = tape.Pos()
+	res.TapeLen = r.Tape.Pos()
 	res.SeqHash = r.seqHash
 	res.Viol = r.viol
 	res.Inconc = r.inconc
@@ -121,11 +129,14 @@ func runOne(t *testing.T, def *CheckDef, tier string, seed int64, tape *Tape, ke
 	}
 	if keepTrace || r.viol != nil || res.Inconc != "" {
 		res.Trace = r.trace
-		res.Tape = tape.Used()
+		res.Tape = r.Tape.Used()
 	}
-	res.WallMs = time.Since(start).Milliseconds()
-	return res
 }
+
+// onFatal is invoked when the system under test panicked in a way that may
+// leave locks held (the bubble can no longer be drained): the violation is
+// written out and the process ends. Set by SimMain.
+var onFatal func(r *Run)
 
 func (r *Run) teardown() {
 	r.simElapsed = time.Since(r.simStart)
@@ -269,6 +280,7 @@ type WorkerSummary struct {
 	Inconcl      []RunResult      `json:"inconclusive"`
 	Seeds        []int64          `json:"seeds"`
 	StoppedEarly bool             `json:"stopped_early"`
+	FatalAbort   bool             `json:"fatal_abort"`
 }
 
 func envInt(name string, def int64) int64 {
@@ -330,7 +342,21 @@ func SimMain(t *testing.T) {
 			fmt.Println("cannot parse replay:", err)
 			os.Exit(2)
 		}
-		res := runOne(t, def, rf.Tier, rf.Seed, ReplayTape(rf.Tape), true)
+		tape := ReplayTape(rf.Tape)
+		if rf.Tape == nil {
+			tape = NewTape(rf.Seed)
+		}
+		onFatal = func(r *Run) {
+			var res RunResult
+			r.fillResult(&res, def, true)
+			out, _ := json.Marshal(res)
+			if p := os.Getenv("SIM_OUT"); p != "" {
+				_ = os.WriteFile(p, out, 0o666)
+			}
+			fmt.Printf("REPLAY-VIOLATION oracle=%s step=%d msg=%s\n", res.Viol.Oracle, res.Viol.Step, res.Viol.Msg)
+			os.Exit(0)
+		}
+		res := runOne(t, def, rf.Tier, rf.Seed, tape, true)
 		out, _ := json.Marshal(res)
 		if p := os.Getenv("SIM_OUT"); p != "" {
 			_ = os.WriteFile(p, out, 0o666)
@@ -356,16 +382,73 @@ func SimMain(t *testing.T) {
 	budget := time.Duration(envInt("SIM_BUDGET_S", 3600)) * time.Second
 	minBudget := time.Duration(envInt("SIM_MIN_BUDGET_S", 60)) * time.Second
 	maxViol := int(envInt("SIM_MAX_VIOL", 3))
-	t0 := time.Now()
+	t0 := realNow()
 	sum := WorkerSummary{Prop: prop, Tier: tier, Stats: map[string]int64{}, Level: def.Level, Rule: def.Rule, Assumptions: def.Assumptions, Real: def.Real, Stub: def.Stub}
 	states := map[string]struct{}{}
 	hashes := map[uint64]struct{}{}
+	finish := func() {
+		for s := range states {
+			sum.States = append(sum.States, s)
+		}
+		sort.Strings(sum.States)
+		for h := range hashes {
+			sum.SeqHashes = append(sum.SeqHashes, h)
+		}
+		sum.WallMs = realNow().Sub(t0).Milliseconds()
+		out, _ := json.Marshal(sum)
+		if p := os.Getenv("SIM_OUT"); p != "" {
+			if err := os.WriteFile(p, out, 0o666); err != nil {
+				fmt.Println("cannot write summary:", err)
+				os.Exit(2)
+			}
+		} else {
+			var sb strings.Builder
+			fmt.Fprintf(&sb, "runs=%d nontrivial=%d steps=%d sim_ms=%d wall_ms=%d states=%d interleavings=%d violations=%d inconclusive=%d\n",
+				sum.Runs, sum.NonTrivial, sum.Steps, sum.SimMs, sum.WallMs, len(sum.States), len(sum.SeqHashes), len(sum.Violations), len(sum.Inconcl))
+			keys := make([]string, 0, len(sum.Stats))
+			for k := range sum.Stats {
+				keys = append(keys, k)
+			}
+			sort.Strings(keys)
+			for _, k := range keys {
+				fmt.Fprintf(&sb, "  %s=%d\n", k, sum.Stats[k])
+			}
+			for _, v := range sum.Violations {
+				fmt.Fprintf(&sb, "VIOL seed=%d oracle=%s step=%d tape=%d msg=%s\n", v.Seed, v.Viol.Oracle, v.Viol.Step, len(v.Tape), v.Viol.Msg)
+				n := len(v.Trace)
+				lo := n - 40
+				if lo < 0 {
+					lo = 0
+				}
+				for _, l := range v.Trace[lo:] {
+					fmt.Fprintf(&sb, "    %s\n", l)
+				}
+			}
+			for _, v := range sum.Inconcl {
+				fmt.Fprintf(&sb, "INCONCLUSIVE seed=%d %s\n", v.Seed, v.Inconc)
+			}
+			fmt.Print(sb.String())
+		}
+
+	}
+	onFatal = func(r *Run) {
+		var res RunResult
+		r.fillResult(&res, def, true)
+		sum.Runs++
+		sum.Violations = append(sum.Violations, res)
+		sum.FatalAbort = true
+		finish()
+		os.Exit(0)
+	}
 	for i := int64(0); i < count; i++ {
-		if time.Since(t0) > budget {
+		if realNow().Sub(t0) > budget {
 			sum.StoppedEarly = true
 			break
 		}
 		seed := start + i*stride
+		if p := os.Getenv("SIM_OUT"); p != "" {
+			_ = os.WriteFile(p+".cur", []byte(strconv.FormatInt(seed, 10)), 0o666)
+		}
 		res := runOne(t, def, tier, seed, NewTape(seed), false)
 		sum.Runs++
 		sum.Seeds = append(sum.Seeds, seed)
@@ -401,48 +484,14 @@ func SimMain(t *testing.T) {
 			}
 		}
 	}
-	for s := range states {
-		sum.States = append(sum.States, s)
-	}
-	sort.Strings(sum.States)
-	for h := range hashes {
-		sum.SeqHashes = append(sum.SeqHashes, h)
-	}
-	sum.WallMs = time.Since(t0).Milliseconds()
-	out, _ := json.Marshal(sum)
-	if p := os.Getenv("SIM_OUT"); p != "" {
-		if err := os.WriteFile(p, out, 0o666); err != nil {
-			fmt.Println("cannot write summary:", err)
-			os.Exit(2)
-		}
-	} else {
-		var sb strings.Builder
-		fmt.Fprintf(&sb, "runs=%d nontrivial=%d steps=%d sim_ms=%d wall_ms=%d states=%d interleavings=%d violations=%d inconclusive=%d\n",
-			sum.Runs, sum.NonTrivial, sum.Steps, sum.SimMs, sum.WallMs, len(sum.States), len(sum.SeqHashes), len(sum.Violations), len(sum.Inconcl))
-		keys := make([]string, 0, len(sum.Stats))
-		for k := range sum.Stats {
-			keys = append(keys, k)
-		}
-		sort.Strings(keys)
-		for _, k := range keys {
-			fmt.Fprintf(&sb, "  %s=%d\n", k, sum.Stats[k])
-		}
-		for _, v := range sum.Violations {
-			fmt.Fprintf(&sb, "VIOL seed=%d oracle=%s step=%d tape=%d msg=%s\n", v.Seed, v.Viol.Oracle, v.Viol.Step, len(v.Tape), v.Viol.Msg)
-			n := len(v.Trace)
-			lo := n - 40
-			if lo < 0 {
-				lo = 0
-			}
-			for _, l := range v.Trace[lo:] {
-				fmt.Fprintf(&sb, "    %s\n", l)
-			}
-		}
-		for _, v := range sum.Inconcl {
-			fmt.Fprintf(&sb, "INCONCLUSIVE seed=%d %s\n", v.Seed, v.Inconc)
-		}
-		fmt.Print(sb.String())
-	}
+	finish()
+}
+
+// realNow reads the real wall clock even inside a bubble.
+func realNow() time.Time {
+	var tv syscall.Timeval
+	_ = syscall.Gettimeofday(&tv)
+	return time.Unix(int64(tv.Sec), int64(tv.Usec)*1000)
 }
 
 // watchdog runs outside any bubble on the real clock: if no driver makes
